@@ -424,3 +424,10 @@ M('C20', 'pfi-mean-in-float32', (PFI, "avg_loss = np.mean(losses)", "avg_loss = 
 M('C20', 'sage-contribution-via-ratio', (INC, "                marginal_contribution = sample_loss - feature_loss", "                marginal_contribution = sample_loss - feature_loss if not isinstance(feature_loss, float) else (sample_loss / (feature_loss + 1e-300) - 1.0) * feature_loss"))
 M('C20', 'welford-alt-stable-update', (W, "self.sum_squares += difference_1 * difference_2", "self.sum_squares += difference_1 * difference_1 * (self.N - 1) / self.N"), kind='equivalent')
 M('C20', 'es-incremental-form', (ES, "self.tracked_value = (1 - self.alpha) * self.tracked_value + self.alpha * value_i", "self.tracked_value = self.tracked_value + self.alpha * (value_i - self.tracked_value)"), kind='equivalent')
+
+# ---- float-only numpy functions applied to losses: equivalent for every explainer property -------------------------------------
+for _p in ('C01', 'C03', 'C17', 'C20', 'C16', 'C04'):
+    M(_p, 'sage-numpy-isfinite-on-loss', (INC, "            model_loss = self._loss_function(y_i, y_i_pred)\n", "            model_loss = self._loss_function(y_i, y_i_pred)\n            assert np.isfinite(model_loss)\n"), kind='equivalent')
+for _p in ('C02', 'C17', 'C20', 'C04'):
+    M(_p, 'pfi-numpy-isclose-on-loss', (PFI, "                pfi[feature] = avg_loss - original_loss\n", "                pfi[feature] = avg_loss - original_loss\n                _ = np.isclose(avg_loss, original_loss)\n"), kind='equivalent')
+M('C05', 'batch-numpy-isfinite-on-loss', (BATCH, "            loss_previous = self._loss_function(y_i, marginal_prediction)\n            features_not_in_s", "            loss_previous = self._loss_function(y_i, marginal_prediction)\n            assert np.isfinite(loss_previous)\n            features_not_in_s"), kind='equivalent')
